@@ -834,6 +834,10 @@ def qoneModel (api : String) (fv nd : Nat) (wires : List FrameRead.Bytes) : Stri
       (match queryScan q (List.replicate nd true) with
        | none => "crash:go"
        | some (calls, e) => "ok rows:[" ++ dCalls calls ++ "] end:" ++ dQErr e)
+    | "mapscan" =>
+      (match queryMapScan q with
+       | none => "crash:go"
+       | some (m, e) => "ok map:" ++ dMap (m.map (fun kv => (kv.1, toHex kv.2))) ++ " end:" ++ dQErr e)
     | "scancas" =>
       (match scanCAS q nd with
        | none => "crash:go"
